@@ -478,23 +478,39 @@ def ri7(facts, rep, rule='RI-7'):
     keep = lambda pth: pth.rsplit('::', 1)[-1] in ('seek_to', 'read_line', 'read', 'idx', 'idx_by_rid')
     b = inline.inlined(facts, b0, keep)
     rep.analysed_body(b)
-    clears = [bb for bb, t in b.calls() if call_info(t) and call_info(t)['fn'].endswith('Vec::<T, A>::clear')]
-    # Ok results: aggregates Ok(..) assigned to the return place (or to the return place of an inlined worker)
-    oks = []
+    clears = {bb for bb, t in b.calls() if call_info(t) and call_info(t)['fn'].endswith('Vec::<T, A>::clear')}
+    # blocks that produce / propagate an error
+    errs = set()
     for bb in b.reachable(0):
         for s in b.stmts(bb):
-            if s['k'] == 'assign' and s['r']['k'] == 'agg' and s['r'].get('variant') == 'Ok' and 'pj' not in s['p'] and \
-                    (s['p']['l'] == 0 or b.locals[s['p']['l']].get('inl')) and (s['r'].get('adt') or '').endswith('Result'):
-                oks.append(bb)
-    if not clears or not oks:
-        rep.missing(rule, key, 'clear (%d) / Ok (%d) sites not found' % (len(clears), len(oks)))
+            if s['k'] == 'assign' and s['r']['k'] == 'agg' and s['r'].get('variant') == 'Err' and (s['r'].get('adt') or '').endswith('Result'):
+                errs.add(bb)
+        t = b.term(bb)
+        if t['k'] == 'call' and call_info(t) and call_info(t)['fn'].endswith('FromResidual::from_residual'):
+            errs.add(bb)
+    if not clears:
+        rep.bad(rule, key, '%s:%s' % (b.file, b.line), 'the caller\'s vector is never cleared')
         return
-    bad = [o for o in oks if not any(b.dominates(c, o) for c in clears)]
-    if bad:
-        rep.bad(rule, key, b.loc(bad[0]), 'Ok is returned on a path that never cleared the caller\'s vector: it still holds the bases of '
-                                          'the previous fetch')
+    # is a return reachable from the entry without passing a clear and without passing an error block?
+    seen = {0}
+    st = [0]
+    hit = None
+    while st:
+        x = st.pop()
+        if x in clears or x in errs:
+            continue
+        if b.term(x)['k'] == 'return':
+            hit = x
+            break
+        for y in b.succ[x]:
+            if y not in seen:
+                seen.add(y)
+                st.append(y)
+    if hit is not None:
+        rep.bad(rule, key, b.loc(hit), 'Ok is returned on a path that never cleared the caller\'s vector: it still holds the bases of '
+                                       'the previous fetch')
     else:
-        rep.ok(rule, key, b.loc(clears[0]), '%d Ok site(s), all after seq.clear()' % len(oks))
+        rep.ok(rule, key, b.loc(sorted(clears)[0]), 'every successful path passes seq.clear()')
 
 
 # ------------------------------------------------------------------------------------------------ C13: float parse, dialect table
@@ -669,11 +685,11 @@ PO9_AUDIT = {
         'documented precondition: assert_eq!(text.len(), pos.len())',
     'data_structures::bwt::bwt|bounds|idx=x0,len=PtrMetadata(arg2)':
         'pos is a permutation of 0..n (suffix array of the same text, asserted equal length): pos[r] - 1 < n when pos[r] > 0, n - 1 < n, r < n',
-    'data_structures::bwt::bwt|bounds|idx=Sub(x0,1).0,len=PtrMetadata(arg1)':
+    'data_structures::bwt::bwt|bounds|idx=P[-1 + x0].0,len=PtrMetadata(arg1)':
         'pos is a permutation of 0..n (suffix array of the same text, asserted equal length): pos[r] - 1 < n when pos[r] > 0, n - 1 < n, r < n',
     'data_structures::bwt::bwt|overflow-sub|slice::len(arg1),1':
         'texts are non-empty (they end with a sentinel)',
-    'data_structures::bwt::bwt|bounds|idx=Sub(slice::len(arg1),1).0,len=PtrMetadata(arg1)':
+    'data_structures::bwt::bwt|bounds|idx=P[-1 + slice::len(arg1)].0,len=PtrMetadata(arg1)':
         'pos is a permutation of 0..n (suffix array of the same text, asserted equal length): pos[r] - 1 < n when pos[r] > 0, n - 1 < n, r < n',
     'data_structures::bwt::bwt|index|index_mut(x0,x1)<std::vec::Vec<u8>>':
         'pos is a permutation of 0..n (suffix array of the same text, asserted equal length): pos[r] - 1 < n when pos[r] > 0, n - 1 < n, r < n',
@@ -705,23 +721,23 @@ PO9_AUDIT = {
         'a is a symbol of the alphabet the table was built for (row exists); checkpoint r / k exists because one is pushed every k rows starting at row 0',
     'data_structures::bwt::Occ::get|overflow-add|1,Div(arg3,arg1.k)':
         'row numbers and checkpoint positions are bounded by the BWT length (far below usize::MAX); (q + 1) * k > r by definition of q = r / k',
-    'data_structures::bwt::Occ::get|overflow-mul|Add(1,Div(arg3,arg1.k)).0,arg1.k':
+    'data_structures::bwt::Occ::get|overflow-mul|P[1 + Div(arg3,arg1.k)].0,arg1.k':
         'row numbers and checkpoint positions are bounded by the BWT length (far below usize::MAX); (q + 1) * k > r by definition of q = r / k',
-    'data_structures::bwt::Occ::get|overflow-sub|Mul(Add(1,Div(arg3,arg1.k)).0,arg1.k).0,arg3':
+    'data_structures::bwt::Occ::get|overflow-sub|P[Div(arg3,arg1.k)*arg1.k + arg1.k].0,arg3':
         'row numbers and checkpoint positions are bounded by the BWT length (far below usize::MAX); (q + 1) * k > r by definition of q = r / k',
     'data_structures::bwt::Occ::get|overflow-add|1,arg3':
         'row numbers and checkpoint positions are bounded by the BWT length (far below usize::MAX); (q + 1) * k > r by definition of q = r / k',
-    'data_structures::bwt::Occ::get|index|index(arg2,RangeInclusive::new(Add(1,arg3).0,Mul(Add(1,Div(arg3,arg1.k)).0,arg1.k).0))<[u8]>':
+    'data_structures::bwt::Occ::get|index|index(arg2,RangeInclusive::new(P[1 + arg3].0,P[Div(arg3,arg1.k)*arg1.k + arg1.k].0))<[u8]>':
         'r < bwt.len() (documented: r is a BWT row) and the checkpoint rows q*k, (q+1)*k bracket r; the high range is only used when checkpoint q + 1 exists (slice::get), i.e. (q+1)*k < bwt.len()',
-    'data_structures::bwt::Occ::get|overflow-sub|val(slice::get(Deref>::deref(Index<I>>::index(arg1.occ,arg4)),Add(1,Div(arg3,arg1.k)).0)),bytecount::count(index for [T]>::index(arg2,RangeInclusive::new(Add(1,arg3).0,Mul(Add(1,Div(arg3,arg1.k)).0,arg1.k).0)),arg4)':
+    'data_structures::bwt::Occ::get|overflow-sub|val(slice::get(Deref>::deref(Index<I>>::index(arg1.occ,arg4)),P[1 + Div(arg3,arg1.k)].0)),bytecount::count(index for [T]>::index(arg2,RangeInclusive::new(P[1 + arg3].0,P[Div(arg3,arg1.k)*arg1.k + arg1.k].0)),arg4)':
         'the number of occurrences between r and the next checkpoint cannot exceed the checkpoint value',
     'data_structures::bwt::Occ::get|overflow-mul|Div(arg3,arg1.k),arg1.k':
         'row numbers and checkpoint positions are bounded by the BWT length (far below usize::MAX); (q + 1) * k > r by definition of q = r / k',
-    'data_structures::bwt::Occ::get|overflow-add|1,Mul(Div(arg3,arg1.k),arg1.k).0':
+    'data_structures::bwt::Occ::get|overflow-add|1,P[Div(arg3,arg1.k)*arg1.k].0':
         'row numbers and checkpoint positions are bounded by the BWT length (far below usize::MAX); (q + 1) * k > r by definition of q = r / k',
-    'data_structures::bwt::Occ::get|index|index(arg2,RangeInclusive::new(Add(1,Mul(Div(arg3,arg1.k),arg1.k).0).0,arg3))<[u8]>':
+    'data_structures::bwt::Occ::get|index|index(arg2,RangeInclusive::new(P[1 + Div(arg3,arg1.k)*arg1.k].0,arg3))<[u8]>':
         'r < bwt.len() (documented: r is a BWT row) and the checkpoint rows q*k, (q+1)*k bracket r; the high range is only used when checkpoint q + 1 exists (slice::get), i.e. (q+1)*k < bwt.len()',
-    'data_structures::bwt::Occ::get|overflow-add|Index<I>>::index(Index<I>>::index(arg1.occ,arg4),Div(arg3,arg1.k)),bytecount::count(index for [T]>::index(arg2,RangeInclusive::new(Add(1,Mul(Div(arg3,arg1.k),arg1.k).0).0,arg3)),arg4)':
+    'data_structures::bwt::Occ::get|overflow-add|Index<I>>::index(Index<I>>::index(arg1.occ,arg4),Div(arg3,arg1.k)),bytecount::count(index for [T]>::index(arg2,RangeInclusive::new(P[1 + Div(arg3,arg1.k)*arg1.k].0,arg3)),arg4)':
         'row numbers and checkpoint positions are bounded by the BWT length (far below usize::MAX); (q + 1) * k > r by definition of q = r / k',
     'data_structures::bwt::less|unwrap|expect(Alphabet::max_symbol(arg2),lit)<u8>':
         'documented precondition: non-empty alphabet',
@@ -770,6 +786,9 @@ def po9(facts, rep, rule='PO-9'):
             elif eng_po.orphan_match(key, PO9_AUDIT, set(facts.bodies)):
                 k0 = eng_po.orphan_match(key, PO9_AUDIT, set(facts.bodies))
                 rep.audited(rule, k2, o['where'], 'arithmetic of the removed function %s, now written in its caller: %s' % (k0.split('|')[0], PO9_AUDIT[k0]))
+            elif o.get('ty', '').startswith('u') and eng_po.implied_same_value(key, PO9_AUDIT):
+                k0 = eng_po.implied_same_value(key, PO9_AUDIT)
+                rep.audited(rule, k2, o['where'], 'computes the same value as the audited operation `%s`: %s' % (k0.split('|')[2][:60], PO9_AUDIT[k0]))
             else:
                 rep.bad(rule, key, o['where'], 'undischarged %s obligation: %s' % (o['kind'], o['detail']))
     rep.floor(rule, 'obligations', total, 30)
